@@ -23,10 +23,11 @@ RULE = ("(fidelity) real writer with swarm-chosen options -> get_options_and_fra
 COMPONENTS = {"real": ["options.py validation, encode_options, options_from_frame, validate_stream_options, "
                        "LookupDecoder size guard, logical_type_strict gates of all four flat/grouped parsers"],
               "stub": ["peer sending arbitrary headers: simkit.refenc/wire", "second reader: simkit.refdec"]}
+CHUNK = 100
 ASSUMPTIONS = ["the compatibility table is the one in the Jelly specification: FLAT_TRIPLES, GRAPHS, SUBJECT_GRAPHS go "
                "with physical TRIPLES; FLAT_QUADS, DATASETS, NAMED_GRAPHS, TIMESTAMPED_NAMED_GRAPHS with QUADS/GRAPHS; "
-               "UNSPECIFIED logical type goes with anything", "assert statements are enabled (no python -O)"]
-PROBES = ["fidelity_runs", "pairs_runs", "strict_runs", "forbidden_pairs_sent", "permitted_pairs_sent",
+               "UNSPECIFIED logical type goes with anything", "besides the normal interpreter, the reader-side lattice is repeated under python -O once per 1500 runs"]
+PROBES = ["optimized_runs", "fidelity_runs", "pairs_runs", "strict_runs", "forbidden_pairs_sent", "permitted_pairs_sent",
           "small_name_table_sent", "big_table_sent", "bad_version_sent", "unicode_stream_names", "version2_written"]
 SHRINK_LISTS = ["ops"]
 
@@ -43,6 +44,24 @@ def permitted(physical: int, logical: int) -> bool:
 
 
 def generate(rng, run, tier):
+    if run % 1500 == 1499:
+        # the same reader-side lattice points in an interpreter started with -O (assert statements removed)
+        cases = []
+        for _ in range(60):
+            physical = rng.choice([0, 1, 2, 3, 1, 2, 3])
+            logical = rng.choice(LOGICALS)
+            defect = rng.choice(["none", "none", "small_names", "big_table", "version", "version"])
+            names, prefixes, datatypes, version = 16, 8, 4, rng.choice([1, 2])
+            if defect == "small_names":
+                names = rng.choice([0, 1, 7])
+            elif defect == "big_table":
+                names = rng.choice([4097, 1 << 16])
+            elif defect == "version":
+                version = rng.choice([3, 4, 9999, 10000])
+            cases.append({"physical": physical, "logical": logical, "defect": defect, "names": names,
+                          "prefixes": prefixes, "datatypes": datatypes, "version": version,
+                          "delimited": rng.random() < 0.7, "integration": rng.choice(["generic", "rdflib"])})
+        return {"kind": "optimized", "cases": cases, "ops": []}
     kind = rng.choice(["fidelity", "pairs", "pairs", "strict"])
     if kind == "fidelity":
         integration = rng.choice(["generic", "rdflib"])
@@ -178,6 +197,88 @@ def one_statement(physical):
     return tuple(st)
 
 
+def pair_stream(plan):
+    """Hand-made stream for one lattice point: options row, entries, one statement."""
+    ph, lt = plan["physical"], plan["logical"]
+    opts = refenc.make_opts(ph, lt, plan["names"], plan["prefixes"], plan["datatypes"], plan["version"])
+    rows = [wire.enc_row(("options", opts)), wire.enc_row(("prefix", 0, "http://e/")),
+            wire.enc_row(("name", 0, "s")), wire.enc_row(("name", 0, "p"))]
+    s_t, p_t, o_t = ("iri", 1, 0), ("iri", 0, 0), ("lit", "o", None)
+    if ph == 3:
+        rows += [wire.enc_row(("graph_start", ("default",))), wire.enc_row(("triple", s_t, p_t, o_t)),
+                 wire.enc_row(("graph_end",))]
+    elif ph == 2:
+        rows.append(wire.enc_row(("quad", s_t, p_t, o_t, ("default",))))
+    else:
+        rows.append(wire.enc_row(("triple", s_t, p_t, o_t)))
+    return wire.write_stream([wire.Frame(rows)], plan["delimited"])
+
+
+OPT_CHILD = r"""
+import sys, json, io
+sys.path.insert(0, sys.argv[1])
+sys.dont_write_bytecode = True
+from simkit import repo, nodes
+repo.setup()
+from checks import c13
+cases = json.load(open(sys.argv[2]))
+out = []
+for c in cases:
+    data = c13.pair_stream(c)
+    try:
+        items = list(nodes.parse_flat(c["integration"], io.BytesIO(data)))
+        out.append(["accepted", len(items)])
+    except Exception as e:
+        out.append(["raised", type(e).__name__])
+print(json.dumps({"optimize": sys.flags.optimize, "out": out}))
+"""
+
+
+def optimized_side(plan, sim):
+    """The reader-side lattice points once more, in a child interpreter started with -O."""
+    import json
+    import os
+    import subprocess
+    import sys
+    import tempfile
+    sim.count("optimized_runs")
+    here = os.path.dirname(os.path.dirname(os.path.abspath(__file__)))
+    tmp = tempfile.mkdtemp(prefix="c13-")
+    try:
+        pf = os.path.join(tmp, "cases.json")
+        with open(pf, "w") as fh:
+            json.dump(plan["cases"], fh)
+        env = dict(os.environ, PYTHONDONTWRITEBYTECODE="1")
+        env.pop("PYTHONOPTIMIZE", None)
+        p = subprocess.run([sys.executable, "-O", "-B", "-c", OPT_CHILD, here, pf], env=env, capture_output=True,
+                           text=True, timeout=300)
+        if p.returncode != 0:
+            raise HarnessError(f"-O child failed: {p.stderr[-600:]}")
+        res = json.loads(p.stdout.strip().splitlines()[-1])
+    finally:
+        import shutil
+        shutil.rmtree(tmp, ignore_errors=True)
+    if res["optimize"] < 1:
+        raise HarnessError("child interpreter did not run with -O")
+    v = {}
+    keys = set()
+    for c, (what, detail) in zip(plan["cases"], res["out"]):
+        should_accept = permitted(c["physical"], c["logical"]) and c["defect"] == "none"
+        sim.event("opt_case", c["physical"], c["logical"], c["defect"], what)
+        keys.add(("opt", c["physical"], c["logical"], c["defect"], c["integration"]))
+        sig = {"defect": c["defect"], "interpreter": "python -O"}
+        if should_accept and what != "accepted":
+            v.setdefault(("r", c["defect"]), {"clause": "C13.reader_refuses_permitted", "sig": sig,
+                                              "msg": f"under python -O: {c} -> {what} {detail}"})
+        if not should_accept and what == "accepted":
+            v.setdefault(("a", c["defect"]), {"clause": "C13.reader_accepts_forbidden", "sig": sig,
+                                              "msg": f"under python -O (assert statements removed) the reader accepted "
+                                                     f"physical={c['physical']} logical={c['logical']} "
+                                                     f"names={c['names']} version={c['version']} and returned "
+                                                     f"{detail} items"})
+    return list(v.values()), frozenset(keys)
+
+
 def pairs_side(plan, sim):
     sim.count("pairs_runs")
     ph, lt = plan["physical"], plan["logical"]
@@ -308,6 +409,8 @@ def strict_side(plan, sim):
 
 
 def execute(plan, sim):
+    if plan["kind"] == "optimized":
+        return optimized_side(plan, sim)
     if plan["kind"] == "fidelity":
         return fidelity_side(plan, sim)
     if plan["kind"] == "pairs":
